@@ -1,20 +1,27 @@
 """pyxel/util/image.py + pyxel/inputs/loader.py -> Gen_C20.v
 
-Extracted (fail closed on any other shape):
+Extracted (fail closed on any other shape).  The reading is by NORMALISATION, not by statement shape: private helper
+functions of the same module are inlined, single-assignment local aliases and names bound once at module level are
+substituted, tests are decided (if/elif == guard clauses with early returns == match == dispatch dict == conditional
+expression), docstrings / annotations / logging / late imports / message texts are never read.
   * class Alignment(Enum): value string -> member                      -> src_align_names
-  * _set_relative_position: one `alignment == Alignment.<m>` branch per member, each returning a pair
-    of integer expressions over array_x/array_y/output_x/output_y        -> src_align
+  * _set_relative_position: for EACH member the body is partially evaluated with `alignment` = that member (_AlignEval);
+    the pair of integer expressions over array_x/array_y/output_x/output_y that is returned   -> src_align
+    (parameters may be renamed: their roles are then read from the one call in fit_into_array)
   * load_cropped_and_aligned_image: is it decorated with lru_cache, its maxsize, its parameter list
     (= the memoisation key)                                             -> src_memoised, src_memo_maxsize, src_memo_key
-  * load_image: the tuple of separators tried for .txt/.data, in order  -> src_delims
+  * load_image: the separators tried for .txt/.data, in order = what the one loop around
+    np.loadtxt(delimiter=<loop variable>) iterates over — in load_image or in a private helper it calls; the list may be
+    written in place, bound once locally / at module level, or handed to the helper as an argument  -> src_delims
+    (how the loop stops and how failure is reported is behaviour: judged by the correspondence, not read)
   * what could keep loaded content between two calls, in pyxel/inputs/loader.py, pyxel/util/image.py and the two
     loading models: caching decorators on any function, module-level containers that a function mutates
     (subscript store / del, mutating method call, `global`), mutable default arguments, attributes stored on
     functions                                                            -> src_loader_state (names; [] = none)
-  * the call sites of the two loading models (photon_collection.load_image, charge_generation.load_charge): what
-    each passes to load_cropped_and_aligned_image as shape / filename / position_x / position_y / align /
-    allow_smaller_array (names followed through single assignments and the tuple unpacking of `position`), the
-    scaling factor as exponents of (detector.time_step, time_scale, multiplier), and whether the scaled array is
+  * the call sites of the two loading models (photon_collection.load_image, charge_generation.load_charge): an abstract
+    evaluation (_ModelEval) of the body with the optional features at their defaults: what reaches
+    load_cropped_and_aligned_image as shape / filename / position_x / position_y / align / allow_smaller_array, the
+    scaling factor as exponents of (detector.time_step, time_scale, multiplier), and that the scaled array is
     added to the bucket                                                  -> src_photon_call, src_charge_call
 """
 from __future__ import annotations
@@ -545,25 +552,43 @@ def _delims(repo: Path) -> list[str]:
     reported is behaviour — judged by the correspondence (texts against `detect src_delims`), not read here."""
     tree = parse(repo, "pyxel/inputs/loader.py")
     fns = _reachable(tree, find_func(tree, "load_image"))
+    funcs = _module_funcs(tree)
+
+    def reads_with(scope, fn, names, depth=0):
+        """np.loadtxt calls under `scope` (a loop body, or a whole helper) whose delimiter is one of `names` — directly,
+        or inside a private helper that receives such a name as an argument."""
+        if depth > 4:
+            fail(scope, "separator handed through too many helpers")
+        names = set(names)
+        for st in ast.walk(scope):                        # `delimiter = sep`
+            if isinstance(st, ast.Assign) and len(st.targets) == 1 and isinstance(st.targets[0], ast.Name) \
+                    and isinstance(st.value, ast.Name) and st.value.id in names and _stores(fn, st.targets[0].id) == 1:
+                names.add(st.targets[0].id)
+        hits = []
+        for c in ast.walk(scope):
+            if not isinstance(c, ast.Call):
+                continue
+            if ast.unparse(c.func) in LOADTXT:
+                if any(k.arg == "delimiter" and isinstance(k.value, ast.Name) and k.value.id in names for k in c.keywords):
+                    hits.append(c)
+            elif isinstance(c.func, ast.Name) and c.func.id in funcs and funcs[c.func.id] is not fn:
+                g = funcs[c.func.id]
+                passed = [p for p, a in bind_call(g, c).items() if isinstance(a, ast.Name) and a.id in names]
+                passed = [p for p in passed if _stores(g, p) == 0]
+                if passed:
+                    hits += reads_with(g, g, passed, depth + 1)
+        return hits
+
     found, n_calls = [], 0
     for fn in fns:
         inside = set()
         for lp in [n for n in ast.walk(fn) if isinstance(n, ast.For)]:
             if not isinstance(lp.target, ast.Name):
                 continue
-            alias = {lp.target.id}
-            for st in ast.walk(lp):                       # `delimiter = sep` inside the loop body
-                if isinstance(st, ast.Assign) and len(st.targets) == 1 and isinstance(st.targets[0], ast.Name) \
-                        and isinstance(st.value, ast.Name) and st.value.id in alias \
-                        and _stores(fn, st.targets[0].id) == 1:
-                    alias.add(st.targets[0].id)
-            for c in ast.walk(lp):
-                if isinstance(c, ast.Call) and ast.unparse(c.func) in LOADTXT \
-                        and any(k.arg == "delimiter" and isinstance(k.value, ast.Name) and k.value.id in alias
-                                for k in c.keywords):
-                    if id(c) not in inside:
-                        found.append((fn, lp, c))
-                    inside.add(id(c))
+            for c in reads_with(lp, fn, {lp.target.id}):
+                if id(c) not in inside:
+                    found.append((fn, lp, c))
+                inside.add(id(c))
         n_calls += sum(1 for c in ast.walk(fn) if isinstance(c, ast.Call) and ast.unparse(c.func) in LOADTXT)
     if len(found) != 1 or n_calls != 1:
         fail(fns[0], f"load_image: expected one np.loadtxt call, inside one loop over the separators "
